@@ -743,7 +743,7 @@ fn main() {
     // ---- operator pairs (structural; exhaustive over ALL_OPS x ALL_OPS x side when n is large, else a seeded sample)
     if want("pairs") {
         let total = ALL_OPS.len() * ALL_OPS.len() * 2;
-        let take = (n as usize * 2).min(total);
+        let take = (n as usize).min(total);
         let start = rng.below(total as u64) as usize;
         let stride = { let mut s = 1 + rng.below(total as u64) as usize; while gcd(s, total) != 1 { s += 1; } s };
         for j in 0..take {
